@@ -188,7 +188,9 @@ def pushdown_dnf(
             nodes = nodes_for_predicate(predicate, sources, scope_ref_count)
 
             if table not in nodes:
-                continue
+                # the disjunction only holds below if every one of its blocks can be pushed there
+                conditions.pop(table, None)
+                break
 
             conditions[table] = (
                 exp.or_(conditions[table], predicate) if table in conditions else predicate
